@@ -8,7 +8,9 @@
    Only statements; every proof is `exact <lemma>`. *)
 From Coq Require Import Reals ZArith List.
 From QV Require Import Rt.Prelude Rt.Amount Rt.Quantity Gen.Prefixes Gen.Kernels Amount.DecModel Amount.Dec Amount.DecAcc
-  Proofs.Laws Proofs.Kernel Proofs.C09 Proofs.Derived Proofs.AccDec Proofs.EnvDec.
+  Proofs.Laws Proofs.Kernel Proofs.C09 Proofs.Derived Proofs.AccDec Proofs.EnvDec Proofs.AccCatalogue Proofs.EnvCatalogue.
+From QV Require Import Macro.Defs Gen.Catalogue Macro.Inst.
+Import ListNotations.
 From QV Require Amount.Laws.
 Local Open Scope R_scope.
 
@@ -81,6 +83,43 @@ Theorem DEC_C18_envelope_qty_div_rate : forall (TQ : QFull DEC) (PQ : QBase DEC)
   exists y, tmpl_Div_Qty_Rate TQ PQ q r = Ok y.
 Proof. exact env_qty_div_rate. Qed.
 
+(** the catalogue (main crate): every decimal unit scale fits the type and is non-zero; every ratio of two unit
+    scales of one quantity lies in the envelope - for all quantities but Volume (mm^3 : km^3 = 1e-18) *)
+Theorem DEC_C18_catalogue_scales : forall (e : cat_entry SIPrefix) (u : nat),
+  In e catalogue_main -> gd_path (ce_gen e) = PRef ->
+  let S := base_of_gen DEC (ce_gen e) in
+  In u (u_iter S) -> dfit (u_scale S u) /\ dval (u_scale S u) <> 0.
+Proof. exact catalogue_dec_scales. Qed.
+
+Theorem DEC_C18_catalogue_ratios :
+  map (fun e => dec_ratios_ok (ce_gen e)) catalogue_main =
+  [true; true; true; true; true; true; true; true; true; true; true; true; true; false] /\
+  nth_error catalogue_main 13 = Some cat_Volume.
+Proof. exact catalogue_dec_ratios_ok. Qed.
+
+(** hence, for these quantities, conversion and + - / inside the envelope return a value: premises on the amounts only *)
+Theorem DEC_C18_catalogue_convert : forall (e : cat_entry SIPrefix),
+  In e catalogue_main -> gd_path (ce_gen e) = PRef -> dec_ratios_ok (ce_gen e) = true ->
+  let S := base_of_gen DEC (ce_gen e) in
+  forall (q : Qt S) (v : nat), q_unit S q <> v -> In v (u_iter S) -> In (q_unit S q) (u_iter S) ->
+  Amount.Laws.dec_ok (q_amount S q) -> Rabs (dval (q_amount S q)) <= env_hi ->
+  Rabs (dval (q_amount S q) * (dval (u_scale S (q_unit S q)) / dval (u_scale S v))) <= env_hi ->
+  exists q', HasRefUnit_convert S q v = Ok q'.
+Proof. exact catalogue_env_convert. Qed.
+
+Theorem DEC_C18_catalogue_arith : forall (e : cat_entry SIPrefix),
+  In e catalogue_main -> gd_path (ce_gen e) = PRef -> dec_ratios_ok (ce_gen e) = true ->
+  let S := base_of_gen DEC (ce_gen e) in
+  forall (x y : Qt S), q_unit S y <> q_unit S x -> In (q_unit S x) (u_iter S) -> In (q_unit S y) (u_iter S) ->
+  Amount.Laws.dec_ok (q_amount S x) -> Amount.Laws.dec_ok (q_amount S y) ->
+  Rabs (dval (q_amount S x)) <= env_hi -> Rabs (dval (q_amount S y)) <= env_hi ->
+  Rabs (dval (q_amount S y) * (dval (u_scale S (q_unit S y)) / dval (u_scale S (q_unit S x)))) <= env_hi ->
+  (exists r, HasRefUnit_add S x y = Ok r) /\ (exists r, HasRefUnit_sub S x y = Ok r) /\
+  (env_lo <= Rabs (dval (q_amount S y) * (dval (u_scale S (q_unit S y)) / dval (u_scale S (q_unit S x)))) ->
+   Rabs (dval (q_amount S x) / (dval (q_amount S y) * (dval (u_scale S (q_unit S y)) / dval (u_scale S (q_unit S x))))) <= env_hi ->
+   exists r, HasRefUnit_div S x y = Ok r).
+Proof. exact catalogue_env_arith. Qed.
+
 (** the envelope's constants *)
 Theorem DEC_C18_envelope_constants : env_lo = / 1000000000000000 /\ env_hi = 100000000000000000 /\
   (forall r, in_env r <-> env_lo <= Rabs r <= env_hi).
@@ -94,4 +133,8 @@ Print Assumptions DEC_C18_envelope_derived.
 Print Assumptions DEC_C18_envelope_operations.
 Print Assumptions DEC_C18_envelope_rate_mul.
 Print Assumptions DEC_C18_envelope_qty_div_rate.
+Print Assumptions DEC_C18_catalogue_scales.
+Print Assumptions DEC_C18_catalogue_ratios.
+Print Assumptions DEC_C18_catalogue_convert.
+Print Assumptions DEC_C18_catalogue_arith.
 Print Assumptions DEC_C18_envelope_constants.
